@@ -442,7 +442,32 @@ pub fn run(out: &mut Out, tier: &str, seed: u64, prop: &str) {
             std::env::set_var("VP_HOME_DIR", "home/ferris");
             let reqs = ["a @ https://x.org/home/ferris/p", "a @ https://x.org/${VP_HOME_DIR}/p", "a @ https://X.ORG/home/ferris/p", "a @ https://x.org/home/ferris/q", "a>=1", "a >= 1", "a>=1,<2", "a<2,>=1",
                 "A[x,y]>=1", "a[x,y] >=1", "a[y,x]>=1", "b @ https://x.org/home/ferris/p", "a ; os_name == 'a'", "a;os_name=='a'", "a ; os_name == 'b'", "a ; os.name == 'a'", "a ; python_implementation == 'CPython'", "a ; platform_python_implementation == 'CPython'", "a @ https://x.org/home/ferris/p ; os_name == 'a'"];
-            let parsed: Vec<pep508_rs::Requirement<pep508_rs::VerbatimUrl>> = reqs.iter().map(|r| pep508_rs::Requirement::from_str(r).unwrap()).collect();
+            let mut parsed: Vec<pep508_rs::Requirement<pep508_rs::VerbatimUrl>> = reqs.iter().map(|r| pep508_rs::Requirement::from_str(r).unwrap()).collect();
+            let mut reqs: Vec<String> = reqs.iter().map(|r| r.to_string()).collect();
+            // the same requirement recorded with different origins (`with_origin`): origins that differ in kind, in path, or ONLY in
+            // the project name are different values for Eq, Ord and Hash alike
+            {
+                use pep508_rs::RequirementOrigin as O;
+                let pn = |s: &str| pep508_rs::PackageName::from_str(s).unwrap();
+                let origins = [("File(/work/requirements.txt)", O::File("/work/requirements.txt".into())), ("File(/work/pyproject.toml)", O::File("/work/pyproject.toml".into())),
+                    ("Project(/work/pyproject.toml, alpha)", O::Project("/work/pyproject.toml".into(), pn("alpha"))), ("Project(/work/pyproject.toml, beta)", O::Project("/work/pyproject.toml".into(), pn("beta"))),
+                    ("Project(/other/pyproject.toml, alpha)", O::Project("/other/pyproject.toml".into(), pn("alpha"))), ("Workspace", O::Workspace), ("File((workspace))", O::File("(workspace)".into()))];
+                for (i, (a, oa)) in origins.iter().enumerate() {
+                    for (j, (b, ob)) in origins.iter().enumerate() {
+                        out.evaluations += 1;
+                        let (eq, ord) = (oa == ob, oa.cmp(ob));
+                        if eq != (i == j) || eq != (ord == std::cmp::Ordering::Equal) || oa.partial_cmp(ob) != Some(ord) || ord != ob.cmp(oa).reverse() || (eq && hash_of(oa) != hash_of(ob)) {
+                            out.oracle_fail("C16", "RequirementOrigin: Eq / Ord / PartialOrd / Hash disagree (or two different origins compare equal)", serde_json::json!({"a": a, "b": b}));
+                        }
+                    }
+                }
+                for base in ["a>=1", "a @ https://x.org/home/ferris/p"] {
+                    for (name, o) in &origins {
+                        parsed.push(pep508_rs::Requirement::<pep508_rs::VerbatimUrl>::from_str(base).unwrap().with_origin(o.clone()));
+                        reqs.push(format!("{base}  [origin {name}]"));
+                    }
+                }
+            }
             for (i, x) in parsed.iter().enumerate() {
                 for (j, y) in parsed.iter().enumerate() {
                     out.evaluations += 1;
